@@ -641,7 +641,29 @@ def i_jmpl(ins, fmap):
 
 @__pcnpc
 def i_rett(ins, fmap):
-    raise NotImplementedError
+    # return from trap: only legal in supervisor mode with traps disabled.
+    # It restores the previous window, re-enables traps, restores S from PS
+    # and (delayed) transfers control to the target address.
+    adr = fmap(ins.operands[0])
+    if fmap(ET) == bit1:
+        trap(ins, fmap, "illegal_instruction")
+        return
+    if fmap(S) == bit0:
+        trap(ins, fmap, "privileged_instruction")
+        return
+    _cur_cwp = fmap(cwp)
+    _cur_wim = fmap(wim)
+    if _cur_cwp._is_cst:
+        _new_cwp = (_cur_cwp.v + 1) % NWINDOWS
+        if _cur_wim[_new_cwp : _new_cwp + 1] == bit1:
+            trap(ins, fmap, "window_underflow")
+            return
+        fmap[cwp] = cst(_new_cwp, cwp.size)
+    else:
+        fmap[cwp] = top(cwp.size)
+    fmap[S] = fmap(PS)
+    fmap[ET] = bit1
+    fmap[npc] = adr
 
 
 @__pcnpc
@@ -663,7 +685,8 @@ def i_wr(ins, fmap):
 
 @__pcnpc
 def i_flush(ins, fmap):
-    raise NotImplementedError
+    # instruction cache flush: no effect on the modelled state
+    pass
 
 
 @__pcnpc
@@ -688,4 +711,4 @@ def i_CPop2(ins, fmap):
 
 @__pcnpc
 def i_unimp(ins, fmap):
-    raise NotImplementedError
+    trap(ins, fmap, "illegal_instruction")
